@@ -3,7 +3,7 @@
    directly by the harness on amplified spectra, which makes the loop stop after 1-2 passes) with
    what it returned and the number of passes the loop made.  Replaying many passes exactly in Q is not
    feasible (every pass squares the size of the rationals), so:
-     * passes <= 2:  weights = ad_weights passes ... (the model, replayed exactly; rtol 1e-9)
+     * 1 pass, and 2 passes when flagged:  weights = ad_weights passes ... (the model, replayed exactly; rtol 1e-9)
      * more passes:  bins below the 150 dB threshold: weights = ad_dk rt lam bb (ad_S0 f) (exact);
                      other bins: the returned weights are ad_dk rt lam bb S for ONE unknown S, checked
                      by eliminating S between taper 0 and taper k:
@@ -22,6 +22,7 @@ Record ad_case := mk_ad {
   ad_eig : list float;                      (* eigvals, K *)
   ad_rt : list float;                       (* np.sqrt(eigvals) *)
   ad_passes : nat;                          (* passes of the loop (0: the K < 3 branch) *)
+  ad_replay2 : bool;                        (* replay a 2-pass call exactly (costly: chosen by the harness for small calls) *)
   ad_w : list (list float)                  (* returned weights: K rows of L *)
 }.
 
@@ -61,7 +62,7 @@ Definition check_ad (c : ad_case) : bool :=
        forallb (fun f =>
          let s0 := nth f S0 0 in
          let is_default := negb (Qle_bool thr s0) in
-         if is_default || (ad_passes c <=? 2)%nat then
+         if is_default || (ad_passes c <=? 1)%nat || (ad_replay2 c && (ad_passes c =? 2)%nat) then
            (* = ad_weights (ad_passes c) is_default sd N K rt lam Y k f, with var, bb, S0 shared *)
            let S := Qred (ad_iter (if is_default then 0 else ad_passes c - 1) K rt lam bb (ad_ds sd N Y f) s0) in
            forallb (fun k => closeb (w k f) (ad_dk rt lam bb S k)) (seq 0 K)
